@@ -143,6 +143,11 @@ fn max_chunk(path: &Path, len: usize) -> usize {
 
 const HOSTILE: [i64; 12] = [-1, i64::MIN, i64::MAX, 1 << 62, 1 << 31, (1 << 31) - 1, -(1 << 31), 1 << 20, 1 << 40, -2, 0x7fff_ffff_ffff, -(1 << 62)];
 
+/// On the reader path `Ok` is demanded of a valid input only when the allocation cap also covers the largest scalar
+/// field (a 10-byte varint, a 12-byte duration, a 16-byte decimal ...): whether a cap of 0 or 1 byte lets a one-byte
+/// boolean through is the implementation's business, the property only says what must be REFUSED.
+const SCALAR_FIELD_MAX: usize = 32;
+
 impl Prop for C04 {
 	type Scn = Scn;
 	fn id(&self) -> &'static str {
@@ -428,7 +433,7 @@ impl Prop for C04 {
 					out.fail("C04:max-seq-size-not-enforced:ignoring-target", format!("a sequence holds {s} elements in plain (positive-count) blocks, max_seq_size is {}, deserialize_ignored_any returned Ok", lim.max_seq_size));
 					return out;
 				}
-			} else if !counts_sequences && 2 * d + 2 <= lim.allowed_depth && s <= lim.max_seq_size && (matches!(scn.path, Path::Slice) || f <= lim.max_alloc_size) {
+			} else if !counts_sequences && 2 * d + 2 <= lim.allowed_depth && s <= lim.max_seq_size && (matches!(scn.path, Path::Slice) || f.max(SCALAR_FIELD_MAX) <= lim.max_alloc_size) {
 				// a target that ignores some (or all) of the value: what it does keep must be what was written, and the
 				// decoder must stop exactly where the value ends (skipping is decoding too)
 				out.count("valid_input_within_limits_ignoring_target", 1);
@@ -472,7 +477,7 @@ impl Prop for C04 {
 					out.fail("C04:max-alloc-size-not-enforced", format!("a field of {f} bytes was read through a reader with max_alloc_size {}", lim.max_alloc_size));
 					return out;
 				}
-			} else if 2 * d + 2 <= lim.allowed_depth && s <= lim.max_seq_size && (matches!(scn.path, Path::Slice) || f <= lim.max_alloc_size) {
+			} else if 2 * d + 2 <= lim.allowed_depth && s <= lim.max_seq_size && (matches!(scn.path, Path::Slice) || f.max(SCALAR_FIELD_MAX) <= lim.max_alloc_size) {
 				out.count("valid_input_within_limits", 1);
 				match &dec.res {
 					Ok(got) => {
